@@ -96,6 +96,8 @@ Next ==
      ELSE IF ev.a = "fair" THEN phase' = "fair" /\ UNCHANGED <<run, skip, sub, snv, scl, del, ready, answered, last, v7, bad>>
      ELSE IF ev.a = "end" THEN (IF Quiescent THEN UNCHANGED <<run, skip, sub, snv, scl, del, ready, answered, last, phase, v7, bad>>
                                 ELSE Reject("C02: not quiescent after the fair suffix"))
+     ELSE IF ev.res = "skipped"         \* a schedule step that does not apply to what the code really did: skipped
+          THEN UNCHANGED <<run, skip, sub, snv, scl, del, ready, answered, last, phase, v7, bad>>
      ELSE Step(ev)
 
 TraceSpec == Init /\ [][Next]_tvars
